@@ -37,13 +37,6 @@ func vpPayload() []byte {
 	return p
 }
 
-func vpEqBytes(a, b []byte, label string) {
-	vp.Assert(len(a) == len(b), label)
-	for i := range a {
-		vp.Assert(a[i] == b[i], label)
-	}
-}
-
 // vpCheckFrame: independent reader of one emitted frame. Returns the frame length.
 func vpCheckFrame(frame []byte, id int32, data []byte, threshold int) int {
 	total, n0, ok := vpRefVarInt(frame)
